@@ -60,7 +60,8 @@ Theorem C09_retained_versions_keep_their_nodes b (h : rhandle) g cs blocks :
             h_link h <> Some x /\
             (forall kv, In kv g -> find (fun kv' => fst kv' =? fst kv) g = Some kv -> mem (fst kv) cs = false ->
                         v_link (snd kv) <> Some x) /\
-            (forall n v, find (fun kv' => fst kv' =? n) g = None -> ver_in b [PCur] n = Some v ->
+            (forall n v, ver_in b [PCur] n = Some v ->
+                         (find (fun kv' => fst kv' =? n) g = None \/ mem n cs = true) ->
                          v_link v <> Some x)).
 Proof. exact (keep_reachable_spec (cfg_rows bf) oeq plan err_only b h g cs blocks). Qed.
 End C09.
